@@ -68,6 +68,34 @@ func genScenarioKind(r *lib.Rng, cp int, i int, kind int, topic string) Case {
 		i = kind
 	}
 	switch {
+	case kind == -3:
+		c.Kind = "crowd"
+		// MANY readers overflow on the SAME message: 17-24 stalled readers; one message as large as the
+		// limit makes every writer take it as head and get stuck inside it (all queues empty, all equal);
+		// cap short messages fill every queue, the next one finds them all full at once: all are dropped,
+		// none may be kept with a hole
+		w := g.join(rw, false)
+		g.join([]string{"read"}, false)
+		var slow []uint64
+		for k := r.Range(17, 24); k > 0; k-- {
+			slow = append(slow, g.join([]string{"read"}, true))
+		}
+		g.send(w, 125)
+		for _, sn := range slow {
+			g.ops = append(g.ops, Op{K: "stall", N: sn})
+		}
+		g.send(w, maxMessage)
+		g.ops = append(g.ops, Op{K: "pause"})
+		for k := 0; k < cp+1; k++ {
+			g.send(w, smallSizes[r.Intn(len(smallSizes))])
+		}
+		for _, sn := range slow {
+			g.ops = append(g.ops, Op{K: "unstall", N: sn})
+		}
+		g.ops = append(g.ops, Op{K: "pause"})
+		for k := 0; k < 4; k++ {
+			g.send(w, smallSizes[r.Intn(len(smallSizes))])
+		}
 	case kind == -1:
 		c.Kind = "burst"
 		// 100-200 short messages back to back to readers that never stop reading: far fewer than the
